@@ -1,18 +1,21 @@
 (* ValueSem.v — object-level model of State / Solver copies and moves (solver/state.hpp,
    solver/solver.hpp): what matters for memory safety is the dynamic type of the State's
    temporary_variables_ (null / base-class object / the solver's own scratch type), which
-   Solve() downcasts without a check.  The model is parametric in what a copy does to it. *)
+   Solve() downcasts without a check, and the number of stage vectors that scratch holds, which the
+   Rosenbrock stage loop indexes up to the stage count of the parameters in use.  The model is parametric
+   in what a copy does to the scratch and in whether Solve provides missing stage vectors. *)
 From Model Require Import Base.
 Local Open Scope nat_scope.
 
-Inductive tmpk := TNull | TBase | TDerived.
+Inductive tmpk := TNull | TBase | TDerived (nk : nat).   (* nk: stage vectors held (0 for backward Euler) *)
 
 (* one State variable of the test program: live = holds a State that was not moved from *)
 Record sobj := mkSObj { so_live : bool; so_tmp : tmpk; so_data : nat }.
 
 Inductive vop :=
   | OGet (i : nat) | OCopyC (i j : nat) | OCopyA (i j : nat) | OMoveC (i j : nat) | OMoveA (i j : nat)
-  | OSet (i v : nat) | OSolve (i : nat) | OSMove.
+  | OSet (i v : nat) | OSolve (i : nat) | OSMove
+  | OPSolve (i m : nat).     (* Solve(time_step, state, parameters) with parameters of m stages: also becomes the solver's set *)
 
 Inductive vtok := TkGet | TkCC | TkCA | TkMC | TkMA | TkSet | TkSolve (data : nat) | TkSMove | TkSkip | TkUB.
 
@@ -20,12 +23,38 @@ Section VS.
   (* what copy construction / assignment does to the scratch pointer, given the source's:
      None = undefined behaviour (dereferencing a null pointer) *)
   Variable copy_tmp : tmpk -> option tmpk.
+  (* does Solve provide the stage vectors a State created for fewer stages lacks? *)
+  Variable grows : bool.
 
   Definition slot (st : list sobj) (i : nat) : sobj := nth i st (mkSObj false TNull 0).
 
-  Definition vstep (st : list sobj) (o : vop) : list sobj * vtok :=
+  (* a solve on State i with a parameter set of m stages: the new State (scratch possibly enlarged) or UB *)
+  Definition solve_on (st : list sobj) (i m : nat) : option (list sobj) :=
+    match so_tmp (slot st i) with
+    | TDerived nk =>
+      if m <=? nk then Some st
+      else if grows then Some (upd i (mkSObj true (TDerived m) (so_data (slot st i))) st)
+      else None                                            (* K[nk] and beyond: heap overflow *)
+    | _ => None                                            (* static_cast of a base object / null pointer *)
+    end.
+
+  (* the store, and the stage count of the solver's current parameter set (GetState sizes the scratch with it) *)
+  Definition vstate := (list sobj * nat)%type.
+
+  Definition vstep (vs : vstate) (o : vop) : vstate * vtok :=
+    let st := fst vs in
+    let stages := snd vs in
+    let keep (r : list sobj * vtok) : vstate * vtok := ((fst r, stages), snd r) in
     match o with
-    | OGet i => (upd i (mkSObj true TDerived i) st, TkGet)
+    | OPSolve i m =>
+      if so_live (slot st i) then
+        match solve_on st i m with
+        | Some st' => ((st', m), TkSolve (so_data (slot st i)))
+        | None => ((st, m), TkUB)
+        end
+      else ((st, stages), TkSkip)
+    | _ => keep (match o with
+    | OGet i => (upd i (mkSObj true (TDerived stages) i) st, TkGet)
     | OCopyC i j | OCopyA i j =>
       if (i =? j) || negb (so_live (slot st j)) then (st, TkSkip)
       else match copy_tmp (so_tmp (slot st j)) with
@@ -40,15 +69,17 @@ Section VS.
     | OSet i v => if so_live (slot st i) then (upd i (mkSObj true (so_tmp (slot st i)) v) st, TkSet) else (st, TkSkip)
     | OSolve i =>
       if so_live (slot st i) then
-        match so_tmp (slot st i) with
-        | TDerived => (st, TkSolve (so_data (slot st i)))     (* the result is a function of the State's own data *)
-        | _ => (st, TkUB)                                     (* static_cast of a base object / null pointer *)
+        match solve_on st i stages with
+        | Some st' => (st', TkSolve (so_data (slot st i)))    (* the result is a function of the State's own data *)
+        | None => (st, TkUB)
         end
       else (st, TkSkip)
     | OSMove => (st, TkSMove)
+    | OPSolve _ _ => (st, TkSkip)
+    end)
     end.
 
-  Fixpoint vrun (st : list sobj) (ops : list vop) : list vtok :=
+  Fixpoint vrun (st : vstate) (ops : list vop) : list vtok :=
     match ops with
     | [] => []
     | o :: t => let '(st', tk) := vstep st o in
@@ -61,4 +92,5 @@ Definition copy_fixed (t : tmpk) : option tmpk := Some t.
 (* the code before the repair: a base-class TemporaryVariables copy-constructed from the dereferenced pointer *)
 Definition copy_sliced (t : tmpk) : option tmpk := match t with TNull => None | _ => Some TBase end.
 
-Definition store0 (n : nat) : list sobj := repeat (mkSObj false TNull 0) n.
+(* n empty State variables and a solver whose parameter set has `stages` stages *)
+Definition store0 (n stages : nat) : list sobj * nat := (repeat (mkSObj false TNull 0) n, stages).
